@@ -72,7 +72,8 @@ def _run_hxt(ctx, exe, n, seed, rngname, lines, mask="", tsan=False):
     e["SODIUM_VERIF_CPU_DISABLE"] = mask
     if tsan:
         e["TSAN_OPTIONS"] = "halt_on_error=0:exitcode=66:report_signal_unsafe=0:history_size=4"
-    p = subprocess.run([exe, str(n), str(seed), rngname], input="\n".join(lines) + "\n", capture_output=True, text=True, env=e, cwd=ctx.scratch, timeout=3600)
+    e["HX_NOFORK"] = "1"
+    p = subprocess.run([exe, str(n), str(seed), rngname], input="\n".join(lines) + "\n", capture_output=True, text=True, env=e, cwd=ctx.scratch, timeout=600)
     out = p.stdout.split("\n")
     if out and out[-1] == "":
         out.pop()
@@ -116,6 +117,11 @@ def extra(ctx, rng):
     seq, crashed = vcore.run_impl(ctx, hx, lines)
     if crashed:
         raise vcore.BrokenCheck("sequential reference run failed: %s" % crashed)
+    # ops that observe misuse in a forked child cannot run inside a multi-threaded (TSan) process: identify them with HX_NOFORK and leave them out
+    nf, _ = vcore.run_impl(ctx, hx, lines, env={"HX_NOFORK": "1"})
+    keep = [i for i in range(len(lines)) if i < len(nf) and nf[i] == seq[i]]
+    ctx.stats["forking_ops_left_out"] = len(lines) - len(keep)
+    lines = [lines[i] for i in keep]; model = [model[i] for i in keep]; seq = [seq[i] for i in keep]
     flags_line = seq[0]
     model[0] = flags_line          # rt.flags is host-dependent: the sequential run is the reference
     ctx.stats["workload_ops"] = len(lines)
@@ -148,7 +154,21 @@ def extra(ctx, rng):
                     vcore.report(ctx, "thread-result", dict(cfg, what="an operation returned a different result under concurrency than sequentially",
                                                            op=lines[k], threaded=o[:600], sequential=s_[:600], model=m_[:600], ops=lines))
                     return
-    ctx.configs_run.append({"variant": "native", "flavour": "plain", "races": races, "threads": ns, "ops_per_thread": len(lines)})
+    # init-only races (no workload): cheap, so many more schedules of the once-initialisation itself
+    nonly = 0
+    for r in range(90 if not full else 1500):
+        n = (4, 8, 12, 16, 16, 16)[r % 6]
+        seed = ctx.seed * 5000 + r
+        rc, out, err = _run_hxt(ctx, exe, n, seed, "sys", [])
+        nonly += 1
+        ctx.evaluations += 1
+        mline = vcore.run_model(ctx, ["init.race %d %d" % (n, seed)])[0] if r < 6 else "init zero=1 one=%d other=0 early=0" % (n - 1)
+        if rc != 0 or out[:1] != [mline]:
+            vcore.report(ctx, "init-returns", {"threads": n, "seed": seed, "rng": "sys", "what": "sodium_init returns / initialisation probes under a %d-thread race differ from the model (theorems init_once, init_safety)" % n,
+                                               "impl": out[0] if out else "rc=%d %s" % (rc, err[-300:]), "model": mline, "ops": []})
+            return
+    ctx.stats["init_only_races"] = nonly
+    ctx.configs_run.append({"variant": "native", "flavour": "plain", "races": races, "init_only_races": nonly, "threads": ns, "ops_per_thread": len(lines)})
     ctx.log("%d threaded races (N in %s), %d ops per thread: init returns and all outputs agree" % (races, ns, len(lines)))
 
     # happens-before race detection
